@@ -251,7 +251,7 @@ Lemma ann_body_own b bl : nocov_body b = true ->
 Proof.
   destruct b as [l|]; cbn [nocov_body Cover.ann_body]; intros Hn; [|apply OwnOK_nil].
   pose proof (ann_stmts_own_top l bl Hn) as H. destruct (ann_stmts l bl) as [r bl1]. cbn [fst snd] in *.
-  destruct r as [|x r]; exact H.
+  exact H.
 Qed.
 
 Lemma ann_actions_own acts : forallb (fun a => nocov_body (a_body a)) acts = true -> forall bl,
